@@ -1,9 +1,51 @@
 (** C13 — automata conversions and combinators compute the intended regular languages.
     Statements only; proofs live in C13/Proofs*.v. *)
 From Coq Require Import ZArith List Bool.
-From Algo.C13 Require Import Model Spec.
+From Algo.C13 Require Import Model Spec Lemmas ProofsNFA ProofsDFA ProofsSM ProofsUnion ProofsStar.
 Import ListNotations.
 Open Scope Z_scope.
+
+(** Domain.  [nwf]/[dwf]: the transition tables are keyed in strictly increasing order — true of
+    everything built through NewNFA/NewDFA + Add ([C13_constructible]) and of every result.
+    [word_ok]: input words do not contain ε (symbol 0).  [dfa_ok]: state ids are non-negative
+    (DFA.Next reserves -1 for "no transition").  [dfa_noeps]: no DFA transition is labelled 0. *)
+Theorem C13_constructible :
+  (forall start final adds, nwf (nbuild start final adds)) /\
+  (forall start final adds, dwf (dbuild start final adds)).
+Proof. split; [exact nwf_nbuild | exact dwf_dbuild]. Qed.
+
+(** NFA.Accept (ε-closure worklist + move) terminates on every automaton and word and decides the
+    path language: w is accepted iff some path labelled w (ε-moves interleaved) leads from the
+    start state to a final state. *)
+Theorem C13_accept_nfa : forall (n : nfa) (w : list Z), word_ok w ->
+  exists b, naccept n w = Ok b /\ (b = true <-> nlang n w).
+Proof. exact naccept_ok. Qed.
+
+(** DFA.Accept decides the run language. *)
+Theorem C13_accept_dfa : forall (d : dfa) (w : list Z), dfa_ok d -> (daccept d w = true <-> dlang d w).
+Proof. exact daccept_ok. Qed.
+
+(** Clone accepts w iff the original does. *)
+Theorem C13_clone_nfa : forall (n : nfa) (w : list Z), nwf n -> word_ok w -> naccept (nclone n) w = naccept n w.
+Proof. exact nclone_accept. Qed.
+
+Theorem C13_clone_dfa : forall (d : dfa) (w : list Z), dwf d -> daccept (dclone d) w = daccept d w.
+Proof. exact dclone_accept. Qed.
+
+(** ToNFA accepts w iff the DFA does. *)
+Theorem C13_tonfa : forall (d : dfa) (w : list Z), dwf d -> dfa_ok d -> dfa_noeps d -> word_ok w ->
+  naccept (tonfa d) w = Ok (daccept d w).
+Proof. exact tonfa_accept. Qed.
+
+(** Union (receiver first) accepts exactly the union of the operand languages. *)
+Theorem C13_union : forall (ns : list nfa) (w : list Z), Forall nwf ns -> word_ok w ->
+  exists b, naccept (nunion ns) w = Ok b /\ (b = true <-> exists n, In n ns /\ naccept n w = Ok true).
+Proof. exact nunion_accept. Qed.
+
+(** Star accepts exactly the Kleene closure of the language accepted by the operand. *)
+Theorem C13_star : forall (n : nfa) (w : list Z), nwf n -> word_ok w ->
+  exists b, naccept (nstar n) w = Ok b /\ (b = true <-> l_star (fun u => naccept n u = Ok true) w).
+Proof. exact nstar_accept. Qed.
 
 (** D13a (known finding): NFA.Concat as written loses the language when the first operand's
     start state is accepting ([a*·b] rejects [b]) and over-accepts when a final state of the
@@ -42,5 +84,13 @@ Proof.
   vm_compute. repeat split; try reflexivity. eexists. eexists. repeat split; reflexivity.
 Qed.
 
+Print Assumptions C13_constructible.
+Print Assumptions C13_accept_nfa.
+Print Assumptions C13_accept_dfa.
+Print Assumptions C13_clone_nfa.
+Print Assumptions C13_clone_dfa.
+Print Assumptions C13_tonfa.
+Print Assumptions C13_union.
+Print Assumptions C13_star.
 Print Assumptions C13_concat_refuted.
 Print Assumptions C13_concat_overaccepts_refuted.
